@@ -188,8 +188,10 @@ class ModelSide:
                 if fb is not None and i < len(fb):
                     ids.add(fb[i])
                 for lv in par:
-                    if pos < len(lv) and lv[pos][0][0] == 'E' and dp + 1 < len(lv[pos]):
-                        ids.add(int(lv[pos][dp + 1]))
+                    # every block of the vectors encoded at this stripe: with plain xor parity a block that was MOVED inside
+                    # the stripe can be rebuilt at another disk position (FixModel.reconstruct, xor1)
+                    if pos < len(lv) and lv[pos][0][0] == 'E':
+                        ids.update(int(x) for x in lv[pos][1:])
                 # twins for state_search_fetch: any file with the same size and time-stamp
                 for (d2, sub2), ids2 in self.fsblocks.items():
                     if i < len(ids2) and (d2, sub2) != (d, f['sub']):
